@@ -1,0 +1,21 @@
+//go:build verif
+
+package schema
+
+// Instantiations of generic schema types that the package itself never makes, so that the
+// verification tooling (/verif/bin/govc) has SSA bodies for their methods. Compiled only under the
+// build tag "verif"; nothing here is reachable from the library.
+
+type verifStepData struct{ n int }
+type verifInput struct{ s string }
+type verifNamedString string
+
+var (
+	_ = (*CallableStepSchema[verifStepData, verifInput]).Call
+	_ = (*CallableStepSchema[verifStepData, verifInput]).CallSignal
+	_ = (*CallableStepSchema[verifStepData, verifInput]).setupStepData
+	_ = CallableSignalSchema[verifStepData, verifInput].Call
+	_ = TypedStringEnumSchema[verifNamedString].Unserialize
+	_ = TypedStringEnumSchema[verifNamedString].UnserializeType
+	_ = EnumSchema[string, verifNamedString].Validate
+)
